@@ -776,9 +776,13 @@ def real_processes(spec, acc, ctx):
         return p
 
     def client(code, timeout=60):
-        r = subprocess.run([sys.executable, "-c", launcher + code], env=env, capture_output=True, text=True,
-                           timeout=timeout)
-        return r.stdout + r.stderr
+        # (the code goes through a UTF-8 source file: keywords and descriptions that are not ASCII cannot be passed on a
+        # command line when this shard's interpreter runs with an ASCII file-system encoding)
+        script = os.path.join(home, "client_step.py")
+        with open(script, "w", encoding="utf8") as f:
+            f.write("# -*- coding: utf-8 -*-\n" + launcher + code)
+        r = subprocess.run([sys.executable, script], env=env, capture_output=True, timeout=timeout)
+        return r.stdout.decode("utf8", "replace") + r.stderr.decode("utf8", "replace")
 
     srv = start_server()
     try:
